@@ -7,6 +7,7 @@ CONTRACT_MODULES = [
     'contracts.datatypes',
     'contracts.cfgparser',
     'contracts.info',
+    'contracts.matcher',
 ]
 
 CFG = 'cfgparser.ZConfigParser.'
@@ -19,10 +20,11 @@ INFO_MATCH = ['info.SectionInfo.isAllowedName', 'info.SectionInfo.allowUnnamed',
               'info.SectionType.getsectioninfo', 'info.SectionType.gettype', 'info.AbstractType.getsubtype',
               'info.AbstractType.hassubtype', 'info.SectionType.__len__', 'info.SectionType.__getitem__',
               'info.ValueInfo.__init__', 'info.ValueInfo.convert']
+MATCHER = ['matcher.BaseMatcher.__init__', 'matcher.BaseMatcher.addValue']
 
 PROPS = {
-    'C01': {'functions': INFO_MATCH, 'standin': True},
-    'C02': {'functions': ['info.ValueInfo.convert'], 'standin': True},
+    'C01': {'functions': INFO_MATCH + MATCHER, 'standin': True},
+    'C02': {'functions': ['info.ValueInfo.convert'] + MATCHER, 'standin': True},
     'C03': {'functions': CFG_ALL,
             'rx': ['rx:cfgparser._keyvalue_rx', 'rx:cfgparser._section_start_rx'], 'standin': True},
     'C04': {'functions': ['substitution._split', 'substitution.substitute', 'substitution.isname'],
